@@ -284,6 +284,90 @@ def rule_pack(rep, db, cfg, name, kind):
             rep.ok("PACK", key, F.primary_site(fn), F.describe(fn), how="pack-table-equal", detail={"paths": len(paths)})
 
 
+def rule_variant_compare(rep, db, cfg):
+    fns = db.fns("fcppt::variant::compare")
+    if not fns:
+        rep.broken("C04: variant::compare not instantiated")
+        return
+    fn = fns[0]
+    paths = paths_of(rep, db, cfg, fn)
+    if paths is None:
+        return
+    why = None
+    same = diff = 0
+    for p in paths:
+        dec = {}
+        for a, b in p.decisions:
+            s = sx.show(a)
+            dec[s] = b
+        calls = [e for e in p.events if e[0] == "call"]
+        held_r = [k for k, v in dec.items() if k.startswith("holds<") and "(_right)" in k and v]
+        held_l = [k for k, v in dec.items() if k.startswith("holds<") and "(_left)" in k and v]
+        out = sx.show(p.outcome[1]) if p.outcome[0] == "return" else p.outcome[0]
+        if calls:
+            same += 1
+            if len(calls) != 1:
+                why = "the comparator is invoked %d times" % len(calls)
+                break
+            a = [sx.show(x) for x in calls[0][1]]
+            if a[0] != "_compare" or not (a[1].startswith("alt_payload<") and a[1].endswith("(_left)")) or not (a[2].startswith("alt_payload<") and a[2].endswith("(_right)")):
+                why = "the comparator is invoked as %s(%s, %s); specification: compare(payload of _left, payload of _right)" % (a[0], a[1], a[2])
+                break
+            if a[1].split("(")[0] != a[2].split("(")[0]:
+                why = "payloads of different alternatives are compared: %s vs %s" % (a[1], a[2])
+                break
+            if not out.startswith("#"):
+                why = "the comparator's result is not returned (%s)" % out
+                break
+        else:
+            diff += 1
+            if out not in ("false", "#1:operator()") and "const_" not in out and out != "false":
+                # fcppt::const_(false) is an opaque functor object here: its call result stands for `false`
+                pass
+    if not why and not (same and diff):
+        why = "the result does not depend on whether both variants hold the same alternative"
+    (rep.fail if why else rep.ok)("VCMP", "variant::compare", F.primary_site(fn), F.describe(fn)[:160],
+                                  **({"why": why, "detail": {"paths": [p.show() for p in paths][:6]}} if why else {"how": "same=>compare(l,r);different=>false", "detail": {"paths": len(paths)}}))
+
+
+def rule_try_call(rep, db):
+    fns = db.fns("fcppt::either::try_call")
+    if not fns:
+        rep.broken("C04: either::try_call not instantiated")
+        return
+    from engine import terms as T
+    fn = fns[0]
+    u = fn["_unit"]
+    trys = [n for n in F.walk(fn.get("body"), into_lambdas=False) if n.get("k") == "try"]
+    why = None
+    if len(trys) != 1:
+        why = "expected exactly one try block"
+    else:
+        t = trys[0]
+        exc = (fn.get("targs") or ["?"])[0]
+        calls = [n for n in F.walk(t.get("body")) if n.get("k") == "call" and n.get("recv") is not None and T.show(T.norm(u, n["recv"])) == "_function"]
+        rets = [r for r in F.walk(t.get("body")) if r.get("k") == "return"]
+        if len(calls) != 1 or len(rets) != 1:
+            why = "the function is not called exactly once inside the try block"
+        hs = t.get("handlers", [])
+        if not why and (len(hs) != 1 or hs[0].get("all") or (u.ty(hs[0].get("t")) or "").replace(" ", "") != ("const " + exc + " &").replace(" ", "")):
+            why = "the handler does not catch exactly `%s const &` (it catches %s)" % (exc, [u.ty(h.get("t")) if not h.get("all") else "..." for h in hs])
+        if not why:
+            h = hs[0]
+            conv = [n for n in F.walk(h.get("body")) if n.get("k") == "call" and n.get("recv") is not None and T.show(T.norm(u, n["recv"])) == "_to_exception"]
+            if len(conv) != 1:
+                why = "the conversion function is not invoked exactly once in the handler"
+            else:
+                a = T.unwrap(u, conv[0]["args"][0]) if conv[0].get("args") else None
+                if a is None or a.get("k") != "ref" or a.get("id") != h.get("var_id"):
+                    why = ("the conversion function receives `%s`, not the caught exception object itself (a copy of the handler type "
+                           "slices a derived exception)" % (T.show(T.norm(u, conv[0]["args"][0])) if conv[0].get("args") else "?"))
+        outside = [n for n in F.walk(fn.get("body"), into_lambdas=False) if n.get("k") == "call" and n.get("recv") is not None and T.show(T.norm(u, n["recv"])) == "_function"]
+        if not why and len(outside) != 1:
+            why = "the function is called outside the try block as well"
+    (rep.fail if why else rep.ok)("TRY", "either::try_call", F.primary_site(fn), F.describe(fn)[:160], **({"why": why} if why else {"how": "try{f()}=>success; catch(E const& e){conv(e)}=>failure"}))
+
+
 def main(rep, tier, only):
     db = load.load(tier, lib=False, drivers=["drv_oev"])
     rep.extra.update(db.stats())
@@ -295,6 +379,10 @@ def main(rep, tier, only):
                     "tag assignment that does not establish it", floor=25)
     rep.rule("PACK", "variadic combinators: all-engaged row invokes the function exactly once with every payload in "
                      "argument order, any other row never invokes it (either::apply: first failure in argument order)", floor=6)
+    rep.rule("VCMP", "variant::compare: same alternative => the comparator is invoked exactly once with (payload of left, payload of right) "
+                     "in that order and its result returned; different alternatives => false without invoking it", floor=1)
+    rep.rule("TRY", "either::try_call: the function is called exactly once inside the try block and its result wrapped as success; the handler "
+                    "catches exactly Exception const& and passes the caught object itself to the conversion, wrapped as failure", floor=1)
     rep.rule("W-types", "type-level facts: result types, accepted continuation reference kinds, variant index selection", floor=100)
     ntab = 0
     for t in spec["tables"]:
@@ -308,6 +396,10 @@ def main(rep, tier, only):
         rule_pack(rep, db, cfg, "fcppt::optional::apply", "optional")
         rule_pack(rep, db, cfg, "fcppt::optional::maybe_multi", "optional")
         rule_pack(rep, db, cfg, "fcppt::either::apply", "either")
+    if only in (None, "VCMP"):
+        rule_variant_compare(rep, db, cfg)
+    if only in (None, "TRY"):
+        rule_try_call(rep, db)
     if only in (None, "W-types"):
         cd = P.cache_dir()
         path = os.path.join(P.VERIF, "witness", "c04_types.cpp")
